@@ -501,6 +501,38 @@ theorem Match.lang_consumed {n r s t} (h : Match n r s t) (hr : anchorFree r = t
   have := h.recontext hr (consumed s t).length []
   simpa [Lang] using this
 
+/-! ## the same at the level of `Lang` (full matches) -/
+
+/-- `Lang (seq p b) ⊆ Lang (seq (opt p) b)` -/
+theorem lang_seq_opt {p b : Re} {w : List Char} (h : Lang (.seq p b) w) : Lang (.seq (opt p) b) w :=
+  Match.seq_opt h
+
+/-- class inclusion ⇒ language inclusion -/
+theorem lang_mono {r r' : Re} (hs : sub r r' = true) {w : List Char} (h : Lang r w) : Lang r' w :=
+  Match.mono h hs
+
+/-- if every class of `r` only contains characters satisfying `Q`, so does every word of
+`Lang r` ("no class contains whitespace ⇒ no word of the language does") -/
+theorem lang_all_of_allCls {r : Re} {P : CharClass → Bool} {Q : Char → Prop}
+    (hPQ : ∀ C c, P C = true → C.mem c = true → Q c) (hr : allCls P r = true) {w : List Char}
+    (h : Lang r w) : ∀ c ∈ w, Q c := by
+  obtain ⟨w', hw, hq⟩ := Match.all_of_allCls h hPQ hr
+  simp only [List.append_nil] at hw
+  subst hw
+  exact hq
+
+/-- for an anchor-free pattern, what `Match` reads anywhere is a word of the language, and a
+word of the language is matched in any context -/
+theorem lang_iff_match_anywhere {r : Re} (hr : anchorFree r = true) {w : List Char} :
+    Lang r w ↔ ∀ n t, Match n r (w ++ t) t := by
+  constructor
+  · intro h n t
+    have := Match.recontext h hr n t
+    simpa [consumed] using this
+  · intro h
+    have := h w.length []
+    simpa [Lang] using this
+
 /-! ## sequences as flat lists -/
 
 theorem matchL_append {n a b s u} :
